@@ -143,7 +143,13 @@ def check_operator(case):
     total = np.sum(vol * res.data)
     _, _, order = gf.op_info(opname)
     umax = gf.noncorner_max(field._data_full, len(gspec["shape"]))
-    bound = 256 * EPS * float(np.sum(vol)) * gf.weight_bound(gspec, order) * umax + 1e-300
+    # thin shells: the cell volumes pi*(r+^2 - r-^2) etc. (the harness' and the grid's alike) are
+    # only defined to a relative eps*r/dr, which enters the sum like a perturbation of the
+    # telescoping weights (false alarm found by the multi-seed sweep: annulus [10, 10.01], 2 cells)
+    kappa = 0.0
+    if gspec["cls"] in ("polar", "sph", "cyl"):
+        kappa = gspec["radius"][1] / ((gspec["radius"][1] - gspec["radius"][0]) / gspec["shape"][0])
+    bound = (256 + 16 * kappa) * EPS * float(np.sum(vol)) * gf.weight_bound(gspec, order) * umax + 1e-300
     if not abs(total) <= bound:
         where = ""
         if case["onehot"] is not None:
